@@ -30,7 +30,8 @@ type Printer struct {
 	// Prefix is raw text put before the expression (whitespace only, for position tests).
 	Prefix string
 
-	toks []ptok
+	toks   []ptok
+	groups int
 }
 
 type ptok struct {
@@ -38,6 +39,26 @@ type ptok struct {
 	anchor *X
 	// forceSpace: the token must be followed by U+0020 ("not in")
 	forceSpace bool
+	// group > 0: a grouping parenthesis emitted by wrap(); the two tokens of a pair share the id
+	group int
+	// needed: the pair was emitted because the grammar requires it (not a redundant one)
+	needed bool
+}
+
+// PTok is the exported view of a printed token.
+type PTok struct {
+	Text   string
+	Group  int
+	Needed bool
+}
+
+// Tokens returns the token list of the last Print.
+func (p *Printer) Tokens() []PTok {
+	out := make([]PTok, len(p.toks))
+	for i, t := range p.toks {
+		out[i] = PTok{t.text, t.group, t.needed}
+	}
+	return out
 }
 
 var binPrec = map[string]int{
@@ -66,6 +87,7 @@ func (p *Printer) choose(n int, label string) int {
 // Print renders x and fills Line/Col of every node.
 func (p *Printer) Print(x *X) string {
 	p.toks = p.toks[:0]
+	p.groups = 0
 	p.expr(x, 0)
 	return p.layout()
 }
@@ -128,7 +150,7 @@ func openUnary(x *X) int {
 // needParen: must x be parenthesised when it stands where only operators binding >= min are absorbed?
 // leftOf: x is the left operand of a binary operator of precedence min (or min-1 for right-assoc).
 func needParen(x *X, min int, leftOf bool) bool {
-	if x.K == "un" && !leftOf {
+	if x.K == "un" && !leftOf && min < precPostfix {
 		// a prefix operator is unambiguous wherever an operand is expected
 		return false
 	}
@@ -151,12 +173,16 @@ func (p *Printer) wrap(x *X, need bool) {
 	if need {
 		n++
 	}
+	ids := make([]int, n)
 	for i := 0; i < n; i++ {
-		p.emit("(", nil)
+		p.groups++
+		ids[i] = p.groups
+		// the innermost pair is the required one
+		p.toks = append(p.toks, ptok{text: "(", group: ids[i], needed: need && i == n-1 && p.Parens != ParenFull})
 	}
 	p.bare(x)
-	for i := 0; i < n; i++ {
-		p.emit(")", nil)
+	for i := n - 1; i >= 0; i-- {
+		p.toks = append(p.toks, ptok{text: ")", group: ids[i], needed: need && i == n-1 && p.Parens != ParenFull})
 	}
 }
 
